@@ -90,6 +90,7 @@ const (
 	KeyMid  ctxKey = "verif.mid"  // marker attached mid-pipeline by a context operator
 	KeyCb   ctxKey = "verif.cb"   // marker attached by a context-aware callback
 	KeyItem ctxKey = "verif.item" // per-item marker attached by the harness source
+	KeyRst  ctxKey = "verif.rst"  // marker of the context installed by ContextReset
 )
 
 func WithP(ctx context.Context, p int) context.Context { return context.WithValue(ctx, KeyP, p) }
